@@ -28,13 +28,13 @@ def run(ctx):
         if cfg.name in ('CF8', 'Cf8', 'rCF8'):
             return spec.name in ('nul1', 'nul_jam') or not quick
         if quick:
-            return spec.name in ('nul1', 'nul_jam', 'high1') or hash_pair(spec, cfg, ctx.seed) % 4 == 0
+            return spec.name in ('nul1', 'nul_jam', 'high1', 'nul_end', 'nul_end2') or hash_pair(spec, cfg, ctx.seed) % 4 == 0
         return True
 
     # every yylex step job allows up to two NUL bytes anywhere in the input
-    common.tokenization_pairs(ctx, pairs, e1_tag='e1', e1_lengths=range(0, 4) if quick else range(0, 6),
+    common.tokenization_pairs(ctx, pairs, e1_tag='e1', e1_lengths=range(0, 5) if quick else range(0, 6),
                               e2_cap=10 if quick else 16, maxnul=2, e1_filter=e1_filter,
-                              full_e1_lengths=range(0, 4) if quick else range(0, 5))
+                              full_e1_lengths=range(0, 5))
     seven_bit_refusals(ctx)
     common.std_assumptions(ctx)
     ctx.assume('7-bit scanners: inputs assumed < 128, as the property states')
